@@ -2,6 +2,7 @@ package config
 
 import (
 	"fmt"
+	"math"
 	"regexp"
 	"strconv"
 	"strings"
@@ -517,11 +518,21 @@ func convertToString(v any) string {
 	// is what %v gives for integers.
 	switch f := v.(type) {
 	case float64:
-		return strconv.FormatFloat(f, 'f', -1, 64)
+		return formatFloat(f)
 	case float32:
-		return strconv.FormatFloat(float64(f), 'f', -1, 64)
+		return formatFloat(float64(f))
 	}
 	return fmt.Sprintf("%v", v)
+}
+
+// formatFloat prints a whole number with all its digits, so that it reads the
+// same as the same number held in an integer (the shortest representation
+// that round-trips would print 2^62 as 4611686018427388000).
+func formatFloat(f float64) string {
+	if f == math.Trunc(f) && math.Abs(f) < 1<<64 {
+		return strconv.FormatFloat(f, 'f', 0, 64)
+	}
+	return strconv.FormatFloat(f, 'f', -1, 64)
 }
 
 func TryConvertToBool(v any) bool {
